@@ -13,6 +13,17 @@ NOTE_R = ("Mode R = IEEE specials over exact reals (no rounding/overflow/signed 
           "with instance axioms. Trusted: z3, the shim's model of NumPy element semantics, the oracles in /verif/spec and the harness. ")
 
 CHECKS = {
+    "C18": dict(
+        text="Bounded symbolic verification with np.savetxt stubbed to capture the table: the real FldExporter.write_from_scope runs with "
+             "`values` a symbolic integer, symbolic input ranges and 1-3 inputs, pow() a nondeterministic libm stub (any result within "
+             "2^-45 relative) and int() truncation; all branches of the resolution computation and the Op.increment-driven enumeration "
+             "are explored and per path the captured table must have K^n rows with K^n <= v < (K+1)^n (integer arithmetic) and the "
+             "documented grid values in lexicographic order, inactive variables keeping their value; Op.increment is proven to be the "
+             "mixed-radix successor on symbolic digit lists; every exported row's outputs equal a separate scalar process() of that row "
+             "under each header/inputs/outputs switch; reader exports with placeholder numbers and blank/comment/skipped lines tabulate "
+             "exactly the given rows. Counterexamples of the libm stub are replayed with the real pow and blocked when not reproduced.",
+        note=NOTE_R + "Printed digits/separators are inside np.savetxt and not modelled; v bounded (<= 40/90/130 quick).",
+        ref="DESIGN.md §2 C18"),
     "C17": dict(
         text="Bounded symbolic verification: formulas printed from generated expression trees (all ordered pairs of the 9 binary operators in "
              "both tree shapes, unary operators against every binary operator, unary chains, all 34 registered functions at their arity, "
